@@ -158,6 +158,16 @@ CLAIMED['C04'] = dict(
     note='English only; the extraction regexes and the merged-number grouping are outside; quick covers one- and two-group shapes, thorough adds three-group shapes. ' + NOTE_COMMON,
     design='§5/C04')
 
+CLAIMED['C05'] = dict(
+    technique='solver-driven exploration (symx + z3) of the real unit parser over the real English tables; z3 floating-point queries for the compound-currency sum',
+    text=SX + 'Every listed English spelling of a batch (currency, dimension, temperature, age) goes through NumberWithUnitParser.parse / BaseCurrencyParser.parse in four '
+         'layouts, three number lengths and both letter cases; the unit must be the canonical name given by an independent reading of the tables, the number the inner '
+         'parser\'s resolution, the ISO code the table\'s. bind_dictionary is explored over all small dictionaries. The compound sum N + M * (1/100) is compared by z3 (QF_FP) '
+         'with one correctly rounded division; the solver finds amounts that print wrongly (known finding F4) and, in the thorough tier, proves a one-ulp bound for N < 1024.',
+    note='Per-row table quantifier: quick covers every fourth batch of 40 spellings, thorough all rows (an exhaustive finite enumeration driven through the solver, stated as such). '
+         'Inner numerals are C03; the extractor/matcher side is C16; other cultures and compound control flow are outside. Known findings F4, F12. ' + NOTE_COMMON,
+    design='§5/C05')
+
 NOT_APPLICABLE = {
     'C18': 'ground equality of ~50 concrete generated files against concrete YAML: no quantified variable for a solver to range over; '
            'deciding it is executing the generator (whose dependency ruamel.yaml is absent from every usable interpreter)',
